@@ -59,3 +59,45 @@ pub proof fn lemma_start_at_mono(c: Seq<DataId>, i: int, j: int)
 {
     if i < j { lemma_start_at_mono(c, i, j - 1); } else if i > 0 { lemma_start_at_mono(c, i - 1, j - 1); }
 }
+
+// ---- collect_and_prepare: what happens to entries that exist in the destination but not in the snapshot ----
+pub struct DirEntry { pub _opaque: u64 }
+pub struct FileTypeR { pub _opaque: u64 }
+impl FileTypeR {
+    #[verifier::external_body]
+    pub fn is_dir(&self) -> bool { unimplemented!() }
+    #[verifier::external_body]
+    pub fn is_file(&self) -> bool { unimplemented!() }
+}
+impl DirEntry {
+    #[verifier::external_body]
+    pub fn depth(&self) -> usize { unimplemented!() }
+    #[verifier::external_body]
+    pub fn path(&self) -> &PathBufR { unimplemented!() }
+    #[verifier::external_body]
+    pub fn file_type(&self) -> FileTypeR { unimplemented!() }
+}
+pub struct WalkerR { pub _opaque: u64 }
+impl WalkerR {
+    #[verifier::external_body]
+    pub fn skip_current_dir(&mut self) { unimplemented!() }
+}
+#[verifier::external_body]
+pub fn vnext_entry(walker: &mut WalkerR) -> Option<DirEntry> { unimplemented!() }
+pub struct VRestoreOpts { pub delete: bool }
+pub struct FileDirStats { pub additional: u64 }
+pub struct RestoreStats { pub dirs: FileDirStats, pub files: FileDirStats }
+pub struct IoErr { pub _opaque: u64 }
+// the destination as far as removal goes.  EFFECT AS PRECONDITION: something is removed from the destination only if
+// deletion was requested and this is no dry run
+pub struct LocalDestinationR { pub _opaque: u64 }
+impl LocalDestinationR {
+    #[verifier::external_body]
+    pub fn remove_dir(&self, p: &PathBufR, Ghost(delete): Ghost<bool>, Ghost(dry_run): Ghost<bool>) -> (r: Result<(), IoErr>)
+        requires delete && !dry_run,
+    { unimplemented!() }
+    #[verifier::external_body]
+    pub fn remove_file(&self, p: &PathBufR, Ghost(delete): Ghost<bool>, Ghost(dry_run): Ghost<bool>) -> (r: Result<(), IoErr>)
+        requires delete && !dry_run,
+    { unimplemented!() }
+}
